@@ -16,6 +16,7 @@ invocation blocks until killed (real-thread mode has no other timing construct).
 """
 import functools
 import itertools
+import logging
 import sys
 import threading
 import time
@@ -772,6 +773,9 @@ def make_plug_classes(specs, ctx, htf):
       if sp.get('td_kind') == 'instance':
         # tearDown bound on the instance (e.g. forwarded to a wrapped driver's close()); the class has none of its own
         self.tearDown = functools.partial(type(self).vf_teardown_fn, self)
+      if sp.get('ctor') == 'sets-logger':
+        # constructed all right, but it assigned self.logger - which the framework rejects after the constructor returned
+        self.logger = logging.getLogger('station.instrument%d' % i)
 
     def tearDown(self, i=i, sp=sp):
       ctx.log('plug-td', i, getattr(self, 'serial', None))
